@@ -356,11 +356,10 @@ theorem decodeLine_join (recs : List (CMDRec σ)) (ts : List Tok) (st : St σ) (
       simpa using this
     have hsplit := splitLine_join (t :: r) ((joinSp (t :: r)).length + 1) h.ok
       (by have := joinSp_length_ge (t :: r) h.ok; omega)
-    have hfit : ¬ ((t :: r).length ≥ envStrCap) := by have := h.fits; omega
     unfold decodeLine
     simp only [hclr]
     rw [he] at hsplit ⊢
-    simp only [hsemi, Bool.false_eq_true, if_false, hsplit, hfit]
+    simp only [hsemi, Bool.false_eq_true, if_false, hsplit]
 
 /-! ### spec-level facts -/
 
